@@ -285,6 +285,18 @@ BOUNDARIES = [
     ('asn1.der_decode_partial', {'ASN1DecodeError'}, {'asn1'}),
     ('public_key.decode_ssh_public_key', {'KeyImportError'}, KEY_MODS),
     ('public_key.decode_ssh_certificate', {'KeyImportError'}, KEY_MODS),
+    ('public_key.import_private_key',
+     {'KeyImportError', 'KeyEncryptionError'}, KEY_MODS),
+    ('public_key.import_public_key',
+     {'KeyImportError', 'KeyEncryptionError'}, KEY_MODS),
+    ('public_key.import_certificate',
+     {'KeyImportError', 'KeyEncryptionError'}, KEY_MODS),
+    ('public_key._decode_private_list',
+     {'KeyImportError', 'KeyEncryptionError'}, KEY_MODS),
+    ('public_key._decode_public_list',
+     {'KeyImportError', 'KeyEncryptionError'}, KEY_MODS),
+    ('public_key._decode_certificate_list',
+     {'KeyImportError', 'KeyEncryptionError'}, KEY_MODS),
 ]
 
 
@@ -342,19 +354,6 @@ def r5(k: Kit, tier: str) -> None:
               'a malformed signature blob is a failed verification',
               'PacketDecodeError from parsing a signature blob escapes '
               'SSHKey.verify', vf.loc(vf.node))
-    if tier == 'thorough':
-        for qual in ('public_key.import_public_key',
-                     'public_key.import_private_key',
-                     'public_key.import_certificate'):
-            E, res = boundary_escapes(k, qual, KEY_MODS)
-            leaks = sorted({f'{c} @ {o}' for c, o in res
-                            if c not in STUBS and c != '<reraise>' and
-                            not k.idx.exc_is_subclass(c, 'KeyImportError')
-                            and not k.idx.exc_is_subclass(
-                                c, 'KeyEncryptionError')})
-            rep.info('C10.R5', f'{qual}|sweep',
-                     f'{len(leaks)} unconverted raiser sites (not armed): ' +
-                     '; '.join(leaks[:30]))
 
 
 # ------------------------------------------------------------------- R6
@@ -518,6 +517,134 @@ def r7(k: Kit) -> None:
     rep.floor('C10.R7', 'constant-index reads', n, 5)
 
 
+# ------------------------------------------------------------------- R8
+
+OPTIONAL_MODS = ['public_key', 'auth_keys', 'known_hosts']
+
+
+def optional_imports(mod):
+    """[(flag, {names bound only when the import succeeded})] of the
+    `try: from X import a, b; FLAG = True / except ImportError: FLAG = False`
+    blocks at the top of a module."""
+    out = []
+    for st in mod.tree.body:
+        if not isinstance(st, ast.Try) or not any(
+                h.type is not None and 'ImportError' in unparse(h.type)
+                for h in st.handlers):
+            continue
+        names, flags, rebound = set(), set(), set()
+        for b in st.body:
+            if isinstance(b, (ast.Import, ast.ImportFrom)):
+                for a in b.names:
+                    names.add((a.asname or a.name).split('.')[0])
+            elif isinstance(b, ast.Assign):
+                for t in b.targets:
+                    if isinstance(t, ast.Name):
+                        flags.add(t.id)
+        for h in st.handlers:
+            for b in ast.walk(h):
+                if isinstance(b, ast.Name) and isinstance(b.ctx, ast.Store):
+                    rebound.add(b.id)
+                if isinstance(b, (ast.Import, ast.ImportFrom)):
+                    for a in b.names:
+                        rebound.add((a.asname or a.name).split('.')[0])
+        names -= rebound
+        flags &= rebound           # the flag is set on both arms
+        if names and flags:
+            out.append((sorted(flags)[0], names))
+    return out
+
+
+def _callers_guarded(k: Kit, fi, val) -> str:
+    """'' unless `Class.method(...)` call sites of fi exist in the optional
+    modules and each is dominated by the flag test; then their names."""
+    found = []
+    for cf in k.idx.iter_funcs(OPTIONAL_MODS):
+        if cf is fi:
+            continue
+        for c in ast.walk(cf.node):
+            if isinstance(c, ast.Call) and isinstance(c.func, ast.Attribute) \
+                    and c.func.attr == fi.name and \
+                    dotted(c.func.value) == fi.cls.name:
+                g = k.cfg(cf)
+                node = g.node_for(c)
+                if node is None or g.guarded_by(node.id, val) is not None:
+                    return ''
+                found.append(cf.qual)
+    return ', '.join(sorted(set(found)))
+
+
+def r8(k: Kit) -> None:
+    rep = k.rep
+    rep.rule('C10.R8', 'a name that exists only when an optional dependency '
+             'imported (PyOpenSSL, bcrypt) is read in the key / certificate '
+             'parsers only where its availability flag is known true; '
+             'otherwise the parser dies with NameError instead of its '
+             'documented error')
+    n_uses = 0
+    for short in OPTIONAL_MODS:
+        mod = k.idx.module(short)
+        for flag, names in optional_imports(mod):
+            for fi in k.idx.iter_funcs([short]):
+                uses = [n for n in ast.walk(fi.node)
+                        if isinstance(n, ast.Name) and n.id in names and
+                        isinstance(n.ctx, ast.Load)]
+                if not uses:
+                    continue
+                g = k.cfg(fi)
+
+                def val(x, flag=flag):
+                    a = x.ast
+                    if x.kind == 'atom' and isinstance(a, ast.Name) and \
+                            a.id == flag:
+                        return True
+                    return None
+                for u in uses:
+                    node = g.node_for(u)
+                    if node is None:
+                        continue           # annotation / default
+                    n_uses += 1
+                    w = g.guarded_by(node.id, val)
+                    if w is not None and fi.cls is not None:
+                        # guard applied by the (only) callers instead
+                        cw = _callers_guarded(k, fi, val)
+                        if cw:
+                            rep.ok('C10.R8', key(fi, f'{u.id} under {flag}'),
+                                   f'`{u.id}`: every caller ({cw}) tests '
+                                   f'`{flag}` first', k.loc(fi, node))
+                            continue
+                    rep.check(w is None, 'C10.R8',
+                              key(fi, f'{u.id} under {flag}'),
+                              f'`{u.id}` read only where `{flag}` is true',
+                              f'`{u.id}` is bound only when the optional '
+                              f'import succeeded, but is read on a path '
+                              f'that never tested `{flag}`: without the '
+                              'dependency this parser raises NameError',
+                              k.loc(fi, node),
+                              g.describe_path(w) if w else None)
+            # module-level uses: inside `if FLAG:`
+            for st in mod.tree.body:
+                if isinstance(st, (ast.FunctionDef, ast.AsyncFunctionDef,
+                                   ast.ClassDef, ast.Try)):
+                    continue
+                for u in ast.walk(st):
+                    if isinstance(u, ast.Name) and u.id in names and \
+                            isinstance(u.ctx, ast.Load):
+                        n_uses += 1
+                        okm = isinstance(st, ast.If) and \
+                            isinstance(st.test, ast.Name) and \
+                            st.test.id == flag and \
+                            not any(u is x for o in st.orelse
+                                    for x in ast.walk(o))
+                        rep.check(okm, 'C10.R8',
+                                  f'{short}|module-level {u.id}',
+                                  f'module-level use under `if {flag}`',
+                                  f'`{u.id}` read at import time outside '
+                                  f'`if {flag}`',
+                                  f'asyncssh/{short}.py:{u.lineno}')
+    rep.floor('C10.R8', 'optional-import reads', n_uses, 5)
+
+
 def run(idx, rep, tier):
     k = Kit(idx, rep)
     rep.assumptions += NOT_DECIDED
@@ -529,3 +656,4 @@ def run(idx, rep, tier):
     r5(k, tier)
     r6(k)
     r7(k)
+    r8(k)
